@@ -161,6 +161,21 @@ def bool_arith_cases():
     return cases
 
 
+def dot_cases():
+    """A vector's dot product (a sum of products) as an operand: it must stay one operand"""
+    cases = []
+    DOT = ["agg", "dot", "vec"]
+    for op in NUM_BIN:
+        for other in (["ref", "c1"], ["ref", "v1"], ["num", 2.0], ["bin", "+", ["ref", "c2"], ["ref", "c3"]]):
+            cases.append(dict(kind="d2", key="dot-operand/%s@1" % op, tree=["bin", op, other, DOT], vals=0))
+            cases.append(dict(kind="d2", key="dot-operand/%s@0" % op, tree=["bin", op, DOT, other], vals=1))
+        cases.append(dict(kind="d2", key="dot-operand/%s/both" % op, tree=["bin", op, DOT, DOT], vals=0))
+    cases.append(dict(kind="d2", key="dot-operand/neg", tree=["bin", "-", ["ref", "c1"], ["neg", DOT]], vals=0))
+    cases.append(dict(kind="d2", key="dot-operand/abs", tree=["bin", "-", ["ref", "c1"], ["fn", "abs", ["bin", "-", ["ref", "c2"], DOT]]], vals=0))
+    cases.append(dict(kind="d2", key="dot-operand/time", tree=["bin", "-", DOT, ["bin", "-", ["ref", "c1"], ["time"]]], vals=0))
+    return cases
+
+
 def power_tower_cases():
     """(x ** p) ** q with a base that is negative (or whose sign matters): not the same as x ** (p*q)"""
     cases = []
@@ -178,7 +193,7 @@ def power_tower_cases():
 
 
 def gen_cases(tier, seed):
-    cases = depth2_cases() + bool_arith_cases() + power_tower_cases()
+    cases = depth2_cases() + bool_arith_cases() + power_tower_cases() + dot_cases()
     # an arrayed expression where a single value is expected has no value: it must be rejected (at definition or at evaluation)
     for form in ARRAY_AS_SCALAR:
         for ctx in ("converter", "stock"):
